@@ -90,7 +90,8 @@ def _convert_proxy(real, x):
         return rt(bool(x))
     if k == "int":
         if v.kind == "complex":
-            raise Abort("complex -> int conversion accepted by %r" % real)
+            # the real library accepted a complex operand (NumPy: ComplexWarning, imaginary part discarded)
+            return SNum(T.trunc_int(T.V("float", v.re)), rt)
         return SNum(T.trunc_int(v), rt)
     if k == "float":
         if v.kind == "complex":
